@@ -197,7 +197,8 @@ pub fn reduce_static(p: &Program, budget: usize, fails: &dyn Fn(&Program) -> boo
 // C13
 
 fn fake_rustc() -> std::path::PathBuf {
-    Path::new(util::VERIF).join("harness/shim/fake_rustc.sh")
+    let _ = crate::c12::ensure_shim();
+    crate::c12::fake_rustc()
 }
 
 /// All files of a build as (relative path, bytes), for the output dir and the component dir.
